@@ -255,6 +255,29 @@ func checkTranslateIndexedFields(c *Ctx, res *report.Result, f *ssa.Function) {
 			}
 			res.Check(ok, rule, construct, pos, "result[newKey] = value under matched", "the renamed key is stored without the matcher having matched")
 		default:
+			// key chosen first, stored once: phi(key, newKey) where the newKey edge lies on the matched side
+			if phi, isPhi := u.Key.(*ssa.Phi); isPhi {
+				okPhi := true
+				for i, e := range phi.Edges {
+					switch e {
+					case kv:
+					case newKey:
+						onMatched := false
+						for _, g := range flow.NormGuards(flow.EdgeGuards(phi.Block().Preds[i], phi.Block())) {
+							if g.Cond == verdict && g.Side {
+								onMatched = true
+							}
+						}
+						if !onMatched {
+							okPhi = false
+						}
+					default:
+						okPhi = false
+					}
+				}
+				res.Check(okPhi, rule, construct, pos, "result[key or newKey-if-matched] = value", "the key stored is neither the entry's key nor the matcher's result under matched")
+				continue
+			}
 			res.Viol(rule, construct, pos, "the key stored is neither the entry's key nor the matcher's result")
 		}
 	}
